@@ -45,6 +45,9 @@ def gen_scenario(rng, small=False):
         "asyncore_use_poll": rng.random() < 0.4,
         "send_bytes": rng.choice([1, 1, 64, 18000]),
     }
+    if rng.random() < 0.2:
+        # whether socket errors are logged must not change what the server does about them
+        adj["log_socket_errors"] = False
     if rng.random() < 0.3:
         adj["outbuf_overflow"] = rng.choice([1000, 5000])
     if rng.random() < 0.3:
